@@ -57,7 +57,7 @@ FUNCS = ["EXP", "LOG", "SQRT", "ABS"]
 
 
 def budget(tier):
-    return int(os.environ.get("VERIF_BUDGET", 0)) or {"quick": 700, "thorough": 8000}[tier]
+    return int(os.environ.get("VERIF_BUDGET", 0)) or {"quick": 400, "thorough": 6000}[tier]
 
 
 def translators():
@@ -98,7 +98,7 @@ def g_expr(rng, avail, depth=0):
     if r < 0.72:
         return ["mul", g_expr(rng, avail, depth + 1), g_expr(rng, avail, depth + 1)]
     if r < 0.80:
-        return ["div", g_expr(rng, avail, depth + 1), ["add", ["pow", g_leaf(rng, avail), ["num", "2", "2"]], g_num(rng)]]
+        return ["div", g_expr(rng, avail, depth + 1), ["add", ["pow", g_leaf(rng, avail), ["num", "2", "2"]], ["num", *rng.choice(NUMS[1:])]]]
     if r < 0.87:
         e = g_expr(rng, avail, depth + 2)
         if rng.random() < 0.3:
@@ -234,7 +234,7 @@ def gen_cases(rng: random.Random, n: int, tier: str):
         if r < 0.04:
             form = rng.choice(["init", "low-init", "low-init-up", "init-xn", "low-init-xn", "low-init-up-xn"])
             out.append({"kind": "theta", "form": form, "low": rng.randint(-3, 0), "init": rng.randint(1, 4),
-                        "up": rng.randint(5, 9), "n": rng.randint(2, 4), "fix": rng.random() < 0.2, "seed": seed})
+                        "up": rng.randint(5, 9), "n": rng.randint(2, 4), "fix": form in ("init", "init-xn") and rng.random() < 0.4, "seed": seed})
             continue
         safe = rng.random() < 0.5
         if r < 0.20:
@@ -494,7 +494,12 @@ def has_signpow(x):
 # ================================================================ exact evaluation
 
 class Undef(Exception):
-    pass
+    """kind: 'arith' (division by zero, log of a non-positive number …), 'unset' (variable without value),
+    'nopiece' (no branch of a piecewise applies)."""
+
+    def __init__(self, kind="arith"):
+        super().__init__(kind)
+        self.kind = kind
 
 
 def worker_init():
@@ -526,6 +531,8 @@ def _truth(r):
 
 def _rel(op, a, b):
     d = a - b
+    if d.has(sympy.nan, sympy.zoo, sympy.oo):
+        raise Undef()
     if not d.is_Rational:
         d = sympy.N(d, 40)
     if d != 0 and abs(d) < sympy.Rational(1, 10**12):
@@ -547,11 +554,11 @@ def ev(s, env):
             pass
         v = env.get(s)
         if v is None:
-            raise Undef()
+            raise Undef("unset")
         return v
     op = s[0]
     if op == "nan":
-        raise Undef()
+        raise Undef("nopiece")
     if op == "ite":
         return ev(s[2], env) if _truth(ev(s[1], env)) else ev(s[3], env)
     if op == "and":
@@ -592,6 +599,10 @@ def ev_sympy(e, env):
     """sympy expression (pharmpy's) -> exact value or bool; raises Undef.  `env` maps printed atom names to values."""
     if e.is_Float:
         return sympy.Rational(float(e))
+    if e is sympy.nan:
+        raise Undef("nopiece")       # a Piecewise without applicable branch folds to nan
+    if e is sympy.zoo or e is sympy.oo or e is sympy.S.NegativeInfinity:
+        raise Undef("arith")
     if e.is_Number:
         return e
     if e is sympy.true:
@@ -601,13 +612,13 @@ def ev_sympy(e, env):
     if e.is_Symbol or isinstance(e, AppliedUndef):
         v = env.get(str(e))
         if v is None:
-            raise Undef()
+            raise Undef("unset")
         return v
     if isinstance(e, sympy.Piecewise):
         for val, cond in e.args:
             if _truth(ev_sympy(cond, env)):
                 return ev_sympy(val, env)
-        raise Undef()
+        raise Undef("nopiece")
     if isinstance(e, (sympy.And, sympy.Or)):
         vals = [_truth(ev_sympy(a, env)) for a in e.args]
         return all(vals) if isinstance(e, sympy.And) else any(vals)
@@ -824,28 +835,33 @@ def k_record(drv, wire, rec_statements, rng, label, k, tags):
         names = sorted({str(a) for a in ce.free_symbols} | _wsyms(ms[2]))
         for trial in range(6):
             env = {nme: rand_value(rng, nme) for nme in names}
+            kinds = []
             try:
                 vm = ev(ms[2], env)
-            except Undef:
+            except Undef as u:
                 vm = None
+                kinds.append(u.kind)
             try:
                 vc = ev_sympy(ce, env)
-            except Undef:
+            except Undef as u:
                 vc = None
+                kinds.append(u.kind)
+            if "arith" in kinds:
+                continue      # sympy may cancel a division by zero; definedness of arithmetic is not compared
             if (vm is None) != (vc is None) or (vm is not None and not same(vm, vc)):
                 k.append(f"{label}: statement {i} ({ms[1]}): model {ms[2]} = {vm}, code {ce} = {vc} at {env}")
                 return
         sk = skeleton_of_model(ms[2])
         if sk is not None:
             tags.append("k:skeleton-compared")
-            if not isinstance(ce, sympy.Piecewise):
-                k.append(f"{label}: statement {i} ({ms[1]}): model is a piecewise {ms[2]}, code is {ce}")
-                return
-            nc = sum(1 for _, c in ce.args if c is not sympy.true)
-            hd = any(c is sympy.true for _, c in ce.args)
-            if (nc, hd) != sk:
-                k.append(f"{label}: statement {i} ({ms[1]}): model skeleton {sk}, code {(nc, hd)}: {ce}")
-                return
+            if isinstance(ce, sympy.Piecewise):
+                # sympy merges branches with equal values and drops decided conditions: only "no more
+                # conditions than the model, and a default only if the model has one" is stable
+                nc = sum(1 for _, c in ce.args if c is not sympy.true)
+                hd = any(c is sympy.true for _, c in ce.args)
+                if nc > sk[0] or (hd and not sk[1] and nc == sk[0]):
+                    k.append(f"{label}: statement {i} ({ms[1]}): model skeleton {sk}, code {(nc, hd)}: {ce}")
+                    return
 
 
 def _wsyms(s, acc=None):
